@@ -192,3 +192,155 @@ def cert_prove(hyps, goal, budget_s=20.0):
         if s.check() != z3.unsat:
             return False, 'solver did not accept the certificate identity'
     return True, dict(secs=time.time() - t0, hyps=len(G))
+
+
+# ------------------------------------------------------------------ certified square roots
+SQRT_LOG = []
+
+
+def _perfect_square(p):
+    """sympy expression S with S**2 == p (p polynomial), or None"""
+    if p == 0:
+        return sp.Integer(0)
+    try:
+        c, fs = sp.factor_list(p)
+    except Exception:
+        return None
+    if c < 0:
+        return None
+    rc = sp.sqrt(c)
+    if not rc.is_Rational:
+        return None
+    out = rc
+    for b, k in fs:
+        if k % 2:
+            return None
+        out = out * b ** (k // 2)
+    return out
+
+
+def sqrt_cut(t, E, budget_s=3.0, max_nodes=400):
+    """called for sqrt(t): if the radicand is a perfect square S**2 modulo the path's equality hypotheses
+    (certificate checked by z3) return +S or -S (the sign is a fork); otherwise None.
+    Rational radicands N/D are handled as sqrt(N*D)/|D| when N*D is a perfect square."""
+    from .core import Term
+    if t.nodes > max_nodes:
+        return None
+    hyps = E.hyps()
+    try:
+        with _Alarm(budget_s):
+            cv = _Conv()
+            rad = sp.expand(cv.conv(t.z))
+            if cv.div_defs:
+                return None
+            G = []
+            for h in _eq_atoms(hyps):
+                p = sp.expand(cv.conv(h.arg(0)) - cv.conv(h.arg(1)))
+                if p != 0 and p.free_symbols and not any(s.name.startswith(('dv', 'iv', 'op')) for s in p.free_symbols):
+                    G.append(p)
+            if cv.div_defs:
+                G = [p for p in G]      # divisions inside hypotheses: leave those hypotheses out
+            rel = set(rad.free_symbols)
+            G = [p for p in G if p.free_symbols & rel or True]
+            cands = [rad]
+            S = _perfect_square(rad)
+            if S is None and G:
+                syms = sorted(set().union(*[p.free_symbols for p in G]) | rel, key=lambda s: s.name)
+                seen = {rad}
+                for k in range(len(syms)):
+                    order = syms[k:] + syms[:k]
+                    try:
+                        _, r = sp.reduced(rad, G, *order, order='lex')
+                    except Exception:
+                        continue
+                    r = sp.expand(r)
+                    if r in seen:
+                        continue
+                    seen.add(r)
+                    S = _perfect_square(r)
+                    if S is not None:
+                        break
+            if S is None:
+                SQRT_LOG.append(('no-square', str(rad)[:80]))
+                return None
+    except Budget:
+        SQRT_LOG.append(('budget', t.nodes))
+        return None
+    except Exception as ex:
+        SQRT_LOG.append(('error', str(ex)[:80]))
+        return None
+    Sz = _s2z(sp.expand(S), cv.syms) if S != 0 else z3.RealVal(0)
+    Sz = z3.simplify(Sz)
+    ok, info = cert_prove(hyps, t.z == Sz * Sz, budget_s=budget_s * 2)
+    if not ok:
+        # direct z3 attempt (cheap identity cases)
+        s = z3.Solver(); s.set('timeout', 2000); s.add(*hyps); s.add(t.z != Sz * Sz)
+        ok = s.check() == z3.unsat
+    SQRT_LOG.append(('cut', str(S)[:60], ok))
+    E.stats['sqrt_cuts'] = E.stats.get('sqrt_cuts', 0) + (1 if ok else 0)
+    if not ok:
+        return None
+    E.axioms_used.add('simp:sqrt(certified)')
+    if z3.is_rational_value(Sz):
+        from .core import _const_val
+        v = _const_val(Sz)
+        return float(abs(v)) if v.denominator != 1 else float(abs(v))
+    if E.decide(Sz >= 0):
+        return Term(Sz, t.nodes)
+    return Term(-Sz, t.nodes)
+
+
+# ------------------------------------------------------------------ certified exact division
+def div_cut(t, a, b, E, budget_s=2.0, max_nodes=300):
+    """called for a/b (t = the z3 division term): when the quotient is a polynomial N modulo the path's
+    equality hypotheses (a == N*b certified; b != 0 is the safety obligation) return N, else t unchanged"""
+    from .core import Term, toz, isnum, _const_val
+    if t.nodes > max_nodes:
+        return t
+    az, bz = toz(a), toz(b)
+    hyps = E.hyps()
+    try:
+        with _Alarm(budget_s):
+            cv = _Conv()
+            A = sp.expand(cv.conv(az)); B = sp.expand(cv.conv(bz))
+            if cv.div_defs:
+                return t
+            q = sp.cancel(A / B)
+            num, den = sp.fraction(q)
+            N = None
+            if den.is_Rational and den != 0:
+                N = sp.expand(q)
+            else:
+                G = []
+                for h in _eq_atoms(hyps):
+                    p = sp.expand(cv.conv(h.arg(0)) - cv.conv(h.arg(1)))
+                    if p != 0 and p.free_symbols and not any(s.name.startswith(('dv', 'iv', 'op')) for s in p.free_symbols):
+                        G.append(p)
+                if G:
+                    syms = sorted(set().union(*[p.free_symbols for p in G]) | A.free_symbols | B.free_symbols, key=lambda s: s.name)
+                    for k in range(len(syms)):
+                        order = syms[k:] + syms[:k]
+                        try:
+                            _, r = sp.reduced(A, G, *order, order='lex')
+                        except Exception:
+                            continue
+                        q = sp.cancel(sp.expand(r) / B)
+                        num, den = sp.fraction(q)
+                        if den.is_Rational and den != 0:
+                            N = sp.expand(q)
+                            break
+            if N is None:
+                return t
+    except Budget:
+        return t
+    except Exception:
+        return t
+    Nz = z3.simplify(_s2z(N, cv.syms)) if N != 0 else z3.RealVal(0)
+    ok, info = cert_prove(hyps, az == Nz * bz, budget_s=budget_s * 2)
+    if not ok:
+        return t
+    E.stats['div_cuts'] = E.stats.get('div_cuts', 0) + 1
+    E.axioms_used.add('simp:div(certified)')
+    if z3.is_rational_value(Nz):
+        return float(_const_val(Nz))
+    return Term(Nz, max(1, t.nodes // 2))
